@@ -125,6 +125,20 @@ pub fn fuzz(seed: u64, calls: u64) {
                 catch_unwind(AssertUnwindSafe(|| {
                     let _ = mref.bus().read(a);
                 }))
+            } else if k < 995 {
+                // a whole assembly-mode step (on a clone, under a watchdog: a step that does not return is a finding, not a hang of the driver)
+                desc = "assembly-mode key_clock".into();
+                let mut c = mref.clone();
+                c.set_step_mode(StepMode::Assembly);
+                match crate::scenario::key_clock_watchdog(&c, std::time::Duration::from_secs(4)) {
+                    None => Err(Box::new("the assembly-mode step did not return within 4 s".to_string()) as Box<dyn std::any::Any + Send>),
+                    Some(Err(msg)) => Err(Box::new(msg) as Box<dyn std::any::Any + Send>),
+                    Some(Ok(mut post)) => {
+                        post.set_step_mode(StepMode::Real);
+                        *mref = post;
+                        Ok(())
+                    }
+                }
             } else {
                 let asm = rr.gen_bool(0.5);
                 desc = format!("set_step_mode asm={} + key_clock (real mode only)", asm);
